@@ -309,6 +309,63 @@ def btime_key(pl):
     return key
 
 
+def _cores_fn(pl):
+    return extract.find_def(pl, "cpu_count_cores")
+
+
+def topology_globs(pl):
+    """the patterns of `for path in glob.glob(A) or glob.glob(B)`, in that order"""
+    fn = _cores_fn(pl)
+    consts = {}
+    for n in ast.walk(fn):
+        if isinstance(n, ast.Assign) and len(n.targets) == 1 and isinstance(n.targets[0], ast.Name) \
+                and isinstance(n.value, ast.Constant) and isinstance(n.value.value, str):
+            consts[n.targets[0].id] = n.value.value
+    loops = _for_loops(fn, "path")
+    if len(loops) != 1:
+        raise NotRecognised("expected one `for path in ...` loop in cpu_count_cores")
+    it = loops[0].iter
+    calls = it.values if isinstance(it, ast.BoolOp) and isinstance(it.op, ast.Or) else [it]
+    out = []
+    for c in calls:
+        if not (isinstance(c, ast.Call) and extract.dotted(c.func) == "glob.glob" and len(c.args) == 1):
+            raise NotRecognised("topology iterable %s" % extract.unparse(it))
+        a = c.args[0]
+        out.append(consts[a.id] if isinstance(a, ast.Name) else extract.const(a))
+    # the set must be fed with the STRIPPED content, and the result must be its size
+    adds = [n for n in ast.walk(loops[0]) if isinstance(n, ast.Call) and extract.dotted(n.func) == "ls.add"]
+    if len(adds) != 1 or extract.unparse(adds[0].args[0]) != "f.read().strip()":
+        raise NotRecognised("ls.add(f.read().strip()) not found")
+    return out
+
+
+def cores_mapping(pl):
+    """(K, V) of `mapping[current_info[K]] = current_info[V]` and the keys of the `startswith` test"""
+    fn = _cores_fn(pl)
+    kv = None
+    for n in ast.walk(fn):
+        if isinstance(n, ast.Assign) and isinstance(n.targets[0], ast.Subscript) \
+                and extract.dotted(n.targets[0].value) == "mapping":
+            k = n.targets[0].slice
+            v = n.value
+            if isinstance(k, ast.Subscript) and isinstance(v, ast.Subscript) \
+                    and extract.dotted(k.value) == "current_info" and extract.dotted(v.value) == "current_info":
+                kv = (extract.const(k.slice).decode(), extract.const(v.slice).decode())
+    if kv is None:
+        raise NotRecognised("mapping[current_info[..]] = current_info[..] not found")
+    keys = None
+    for n in ast.walk(fn):
+        if isinstance(n, ast.Call) and extract.dotted(n.func) == "line.startswith" and isinstance(n.args[0], ast.Tuple):
+            keys = [extract.const(e).decode() for e in n.args[0].elts]
+    if keys is None:
+        raise NotRecognised("line.startswith((..)) not found")
+    seps = [extract.const(n.args[0]) for n in ast.walk(fn)
+            if isinstance(n, ast.Call) and extract.dotted(n.func) == "line.split" and n.args]
+    if seps != [b"\t:"]:
+        raise NotRecognised("key/value separator %r" % (seps,))
+    return [kv[0], kv[1]] + keys
+
+
 def power_time(common, name):
     cls = extract.find_class(common, "BatteryTime")
     for st in cls.body:
@@ -357,3 +414,7 @@ def facts(snap, F):
     F.try_add("statKeys", "List String", lambda: strs(stat_keys(pl)),
               "the `line.startswith` keys of cpu_stats in test order (value = second token)")
     F.try_add("btimeKey", "String", lambda: S(btime_key(pl)), "the key of boot_time (value = second token)")
+    F.try_add("topologyGlobs", "List String", lambda: strs(topology_globs(pl)),
+              "cpu_count_cores: the glob patterns in the order of `glob(A) or glob(B)` (content stripped, set size returned)")
+    F.try_add("coresMapping", "List String", lambda: strs(cores_mapping(pl)),
+              "cpu_count_cores method #2: [K, V] of `mapping[current_info[K]] = current_info[V]`, then the `startswith` keys")
